@@ -72,20 +72,19 @@ Fixpoint book_obs (s : st) (l : list (Z * Z * Z)) : option st :=
     else None
   end.
 
-(* the model on one chunk followed by a settle *)
-Fixpoint feed_chunk (fixed : bool) (s : st) (l : list (Z * Z * bool)) : st * outs * bool * bool :=
+(* the model on one chunk followed by a settle: new state, what it sent, delegated?, damaged body in the chunk? *)
+Fixpoint feed_chunk (fixed : bool) (s : st) (l : list (Z * Z * bool)) : st * bool :=
   match l with
-  | [] => (s, [], false, false)
+  | [] => (s, false)
   | (t, cls, mal) :: r =>
-    let '(s1, o1, d1) := step fixed s (if t =? -1 then EvVersion else EvRecv t cls) in
-    let '(s2, o2, d2, m2) := feed_chunk fixed s1 r in
-    (s2, o1 ++ o2, d1 || d2, mal || m2)
+    let s1 := step fixed s (if t =? -1 then EvVersion else EvRecv t cls) in
+    let '(s2, m2) := feed_chunk fixed s1 r in (s2, mal || m2)
   end.
 
-Definition model_step (fixed : bool) (s : st) (chunk : list (Z * Z * bool)) : st * outs * bool * bool :=
-  let '(s1, o1, d1, m1) := feed_chunk fixed s chunk in
-  let '(s2, o2, _) := step fixed s1 EvSettle in
-  (s2, o1 ++ o2, d1, m1).
+Definition model_step (fixed : bool) (s : st) (chunk : list (Z * Z * bool)) : st * list (Z * Z) * bool * bool :=
+  let '(s1, m1) := feed_chunk fixed (begin_step s) chunk in
+  let s2 := step fixed s1 EvSettle in
+  (s2, olog (cn s2), deleg (cn s2), m1).
 
 Inductive chk_res := Ok (s : st) | Accept | Bad.
 
